@@ -111,3 +111,86 @@ def run_part(report, tier):
                 shutil.rmtree(d, ignore_errors=True)
     report.cov["rule"] = rule + (" | concurrent part: one evaluation = one complete schedule of parent and child processes of a "
                                 "multi_proc TmpPool over the virtual manager list (engine A)")
+
+
+# ---------------------------------------------------------------------------------------------------
+# a pool constructed in one process and entered (used as a context) in a really forked child
+# ---------------------------------------------------------------------------------------------------
+
+def fork_entered_part(report, tier):
+    """Every combination of (plain / multi_proc) x (1..3 creates, an optional remove) x (normal / raising body),
+    the `with pool:` block running in a forked child of the process that constructed the pool.  Real fork():
+    what matters here is the identity of the OS process, which the virtual layer does not model."""
+    import itertools
+    import signal
+    import tempfile
+    import time
+    from windpyutils.files import TmpPool
+    base = tempfile.mkdtemp(prefix="verif-c20f-", dir="/dev/shm")
+    n = bad = 0
+    try:
+        for multi, k, rm, raising in itertools.product((False, True), (1, 2, 3), (False, True), (False, True)):
+            d = tempfile.mkdtemp(dir=base)
+            pool = TmpPool(d, multi_proc=multi)
+            pid = os.fork()
+            if pid == 0:
+                code = 0
+                try:
+                    os.setsid()
+                    try:
+                        with pool:
+                            paths = [pool.create() for _ in range(k)]
+                            if rm:
+                                pool.remove(paths[0])
+                            if not all(os.path.exists(p) for p in paths[(1 if rm else 0):]):
+                                code = 4
+                            if raising:
+                                raise KeyError("body")
+                    except KeyError:
+                        pass
+                except BaseException:   # noqa
+                    code = 5
+                finally:
+                    os._exit(code)
+            deadline = time.time() + 30
+            status = None
+            while time.time() < deadline:
+                w, st = os.waitpid(pid, os.WNOHANG)
+                if w:
+                    status = st
+                    break
+                time.sleep(0.01)
+            try:
+                os.killpg(pid, signal.SIGKILL)
+            except OSError:
+                pass
+            if status is None:
+                try:
+                    os.waitpid(pid, 0)
+                except OSError:
+                    pass
+            n += 1
+            left = sorted(os.listdir(d))
+            case = {"multi_proc": multi, "creates": k, "remove_first": rm, "body_raises": raising}
+            if status is None or os.WEXITSTATUS(status) != 0:
+                bad += 1
+                report.violation({"spec": "TmpPool/entered-in-child", "kind": "child-failed", "multi_proc": multi},
+                                 "pool constructed in the parent, context entered in a forked child %r: child status %r" % (case, status),
+                                 {"engine": "fork", "case": case})
+            elif left:
+                bad += 1
+                report.violation({"spec": "TmpPool/entered-in-child", "kind": "left-behind", "multi_proc": multi},
+                                 "pool constructed in the parent, `with pool:` run in a forked child %r: %d file(s) exist after the "
+                                 "context was left" % (case, len(left)), {"engine": "fork", "case": case})
+            mgr = getattr(pool, "_manager", None)
+            if mgr is not None:
+                try:
+                    mgr.shutdown()
+                except Exception:   # noqa
+                    pass
+    finally:
+        shutil.rmtree(base, ignore_errors=True)
+    report.part("TmpPool/entered-in-forked-child", states=n, transitions=n, evaluations=n, traces_validated_against_impl=n,
+                exhaustive=True, failures=bad,
+                what="pool constructed in the parent, used as a context in a really forked child: 2 kinds x 1..3 creates x "
+                     "optional remove x normal/raising body; directory must be empty afterwards")
